@@ -15,7 +15,7 @@ use tokio::{
     io::{AsyncWriteExt, BufWriter},
     sync::mpsc::{channel, Receiver, Sender},
 };
-use tracing::info;
+use tracing::{info, warn};
 
 #[cfg(unix)]
 use tokio::signal::unix::{signal, SignalKind};
@@ -133,7 +133,14 @@ async fn log_thread(
     loop {
         let e = rx.recv().await.ok_or_else(|| err_msg("dequeue"))?;
         if let Some(e) = e {
-            let mut line = format.to_string(e).context("deserializer error")?;
+            // a record the script cannot format must not end the log task (and with it the process)
+            let mut line = match format.to_string(e) {
+                Ok(line) => line,
+                Err(err) => {
+                    warn!("access log: record skipped: {} cause: {:?}", err, err.cause);
+                    continue;
+                }
+            };
             line += "\r\n";
             stream
                 .write(line.as_bytes())
